@@ -10,6 +10,7 @@ import Naga.Driver.C17
 import Naga.Driver.C14
 import Naga.Driver.C09
 import Naga.Driver.C11
+import Naga.Driver.CSem
 
 /-! Line-protocol driver: `nagadrv <cmd> [args]`, one input line ↦ one output line. -/
 
@@ -37,5 +38,6 @@ def main (args : List String) : IO UInt32 := do
   | ["c14"] => loop stdin stdout Naga.Driver.C14.handle; return 0
   | ["c09"] => loop stdin stdout Naga.Driver.C09.handle; return 0
   | ["c11"] => loop stdin stdout Naga.Driver.C11.handle; return 0
+  | ["csem"] => loop stdin stdout Naga.Driver.CSem.handle; return 0
   | ["sem"] => loop stdin stdout Naga.Driver.Sem.handle; return 0
   | _ => IO.eprintln s!"nagadrv: unknown command {args}"; return 2
